@@ -53,7 +53,9 @@ pub fn run(ctx: &Ctx, rep: &mut Report) {
         }
         let mut rng = Rng::derive(ctx.seed, 0xC14, wi);
         rep.progress_idx(wi, "C14 world");
-        let dopts = DictOpts { max_entries: 30, ..DictOpts::default() };
+        // (no user-dictionary rows with an estimated cost: the loader estimates it with the configured path-rewrite plugins, so
+        // the load with the plugins and the reference load without them would hold different costs for the same row)
+        let dopts = DictOpts { max_entries: 30, auto_cost: false, ..DictOpts::default() };
         let matrix = dictgen::gen_matrix(&mut rng, &dopts);
         let mut sys = dictgen::gen_system(&mut rng, &dopts, &matrix);
         let nid = matrix.nid() as i64;
